@@ -2,7 +2,7 @@
 (* Exhaustive exploration of the limiter (every order of arrive / cancel / finish and of the      *)
 (* library's own steps) and generator of the quiescence-granularity behaviours replayed on the     *)
 (* real LimitParallelRequests.                                                                     *)
-EXTENDS Limiter, Json
+EXTENDS Limiter, Json, SequencesExt
 CONSTANTS Walks, MaxEvents      \* Walks = 0: exhaustive, fine-grained; > 0: random walks at quiescence granularity
 VARIABLES s, w, hist
 Init == s = S0 /\ hist = <<>> /\ w \in (IF Walks = 0 THEN {0} ELSE 1..Walks)
@@ -12,7 +12,8 @@ Enabled == {a \in EnvActs : EnvApply(s, a) # {}}
 Coarse == /\ Len(hist) < MaxEvents /\ Enabled # {}
           /\ \E a \in {RandomElement(Enabled)} :          \* (bound once: a LET would re-evaluate RandomElement at each use)
                \E t \in {RandomElement(UNION {Quiesce(u) : u \in EnvApply(s, a)})} :
-                 s' = t /\ hist' = Append(hist, [act |-> a, exp |-> Proj(t), alts |-> Cardinality({Proj(x) : x \in UNION {Quiesce(u) : u \in EnvApply(s, a)}})])
+                 s' = t /\ hist' = Append(hist, [act |-> a, exp |-> Proj(t), alts |-> Cardinality({Proj(x) : x \in UNION {Quiesce(u) : u \in EnvApply(s, a)}}),
+                                               exps |-> SetToSeq({Proj(x) : x \in UNION {Quiesce(u) : u \in EnvApply(s, a)}})])
           /\ w' = w
 Next == IF Walks = 0 THEN Fine ELSE Coarse
 View == <<s, w>>
